@@ -28,7 +28,8 @@ def required_buckets(tier):
            'C19/create_solution/ok', 'C19/create_solution_from/ok', 'C19/rescale/', 'C19/dataframe/ok']
     for mag in ('1e-10', '1e-8', '1e-6', '1e-4', '1e-2', '1e0', '1e1'):
         req.append(f'C19/transfer/liquid/{mag}')
-    req += ['C19/recipe/transfer', 'C19/recipe/fill_to', 'C19/recipe/dilute', 'C19/create_solution/container_solvent/']
+    req += ['C19/recipe/transfer', 'C19/recipe/fill_to', 'C19/recipe/dilute', 'C19/create_solution/container_solvent/',
+            'C19/plate_transfer_source_named/1->N', 'C19/plate_transfer_source_named/N->1', 'C19/plate_transfer_source_named/N->N']
     return req
 
 
@@ -41,9 +42,9 @@ def plan(tier, seed):
 
 def _plan(tier, seed):
     if tier == 'quick':
-        return (shard('history', 200, 8) + shard('rescale', 4, 2) + shard('recipe', 100, 3) + fill_pattern_jobs(2)
+        return (shard('history', 200, 8) + shard('rescale', 4, 2) + shard('recipe', 100, 3) + fill_pattern_jobs(2) + shard('plate_forms', 60, 2)
                 + under_display_configs(shard('history', 30, 2) + shard('rescale', 1, 1) + shard('recipe', 20, 2)))
-    return (shard('history', 5000, 24) + shard('rescale', 40, 4) + shard('recipe', 3000, 12) + fill_pattern_jobs(4)
+    return (shard('history', 5000, 24) + shard('rescale', 40, 4) + shard('recipe', 3000, 12) + fill_pattern_jobs(4) + shard('plate_forms', 1200, 4)
             + under_display_configs(shard('history', 500, 8) + shard('rescale', 4, 2) + shard('recipe', 300, 6)))
 
 
@@ -57,10 +58,41 @@ def fill_patterns(rng, case, idx):
     fill_pattern_cases(rng, case, idx)
 
 
+def plate_forms(rng, case, idx):
+    """(round 17) Directed: every pairing form of a transfer between two plates - one to many, many to one, element-wise - on
+    random geometries and regions, so that the universal check 'the line a destination well gains names the source plate and
+    well' (handlers.HPlateTransfer) sees each form many times, not only when a random history happens to produce it."""
+    import pyplate.pyplate as pp
+    from pv.monitors import M
+    water = pp.Substance.liquid('H2O', 18.0153, 1)
+    dmso = pp.Substance.liquid('DMSO', 78.13, 1.1004)
+    with M.active(case):
+        ra, ca, rb, cb = rng.randint(2, 4), rng.randint(2, 5), rng.randint(2, 4), rng.randint(2, 5)
+        a = pp.Plate(rng.choice(['stocks', 'source', 'mother']), '1 mL', rows=ra, columns=ca)
+        b = pp.Plate(rng.choice(['pool', 'assay', 'daughter']), '1 mL', rows=rb, columns=cb)
+        src = pp.Container('src', initial_contents=[(water, '50 mL'), (dmso, '5 mL')])
+        src, a = pp.Plate.transfer(src, a, f'{rng.randint(100, 400)} uL')
+        q = f'{rng.choice([5, 12.5, 30, 0.75])} uL'
+        form = ('1->N', 'N->1', 'N->N')[idx % 3]
+        if form == '1->N':
+            frm, to = a[rng.randint(1, ra), rng.randint(1, ca)], rng.choice([b, b[1], b[:, cb], b[1:2, 1:2]])
+        elif form == 'N->1':
+            frm, to = rng.choice([a[:, 1], a[ra], a[1:2, 1:2]]), b[rng.randint(1, rb), rng.randint(1, cb)]
+        else:
+            h, w = rng.randint(1, min(ra, rb)), rng.randint(1, min(ca, cb))
+            frm, to = a[1:h, 1:w], b[rb - h + 1:rb, cb - w + 1:cb]
+        try:
+            pp.Plate.transfer(frm, to, q)
+            M.note_nontrivial('C19', ('plate_forms', form, ra, ca, rb, cb, q))
+        except ValueError:
+            pass
+
+
 def run_job(job):
     if job['kind'] == 'repo_suite':
         return run_cases(job, repo_suite)
-    return run_cases(job, {'history': history, 'rescale': rescale, 'recipe': recipe, 'fill_patterns': fill_patterns}[job['kind']])
+    return run_cases(job, {'history': history, 'rescale': rescale, 'recipe': recipe, 'fill_patterns': fill_patterns,
+                           'plate_forms': plate_forms}[job['kind']])
 
 
 def history(rng, case, idx):
